@@ -40,6 +40,7 @@ inductive Repl
   | ret (v : Nat)        -- `Return(v)`
   | cb (k : Nat)         -- `Apply(func(a) { return a + k })`
   | cbo (k : Nat)        -- `Origin(&o).Apply(func(a) { return o(a) + k })` : callback calls the origin placeholder
+  | tab (v : Nat)        -- `Return(v).When(1).Return(v+1).When(2).Return(v+2)` : argument-dependent result table
   deriving DecidableEq, Repr, Inhabited
 
 /-- content of the 13 entry bytes of a location (targets) or of a placeholder body -/
@@ -165,6 +166,7 @@ def callAt (L : Layout) (s : St) (f a : Nat) : Option Nat :=
     | .reloc g => some (L.orig g a)
     | .jump (.ret v) => some v
     | .jump (.cb k) => some (a + k)
+    | .jump (.tab v) => some (if a = 1 then v + 1 else if a = 2 then v + 2 else v)
     | .jump (.cbo k) =>
       if allX s (L.pages (L.plh f)) then
         match s.text (L.plh f) with
